@@ -89,7 +89,7 @@ Definition arrange (order C : list nat) : list nat :=
 Fixpoint insert_by (key : nat -> nat) (v : nat) (l : list nat) : list nat :=
   match l with
   | [] => [v]
-  | x :: r => if key v <=? key x then v :: l else x :: insert_by key v r
+  | x :: r => if Nat.leb (key v) (key x) then v :: l else x :: insert_by key v r
   end.
 Definition sort_by (key : nat -> nat) (l : list nat) : list nat := fold_right (insert_by key) [] l.
 
@@ -143,7 +143,7 @@ Definition connect1 (s : cstore) (a b : nat) : cstore * res :=
     else (s, Err ConnErr)
   else (s, Err TypeErr).
 
-(* Channel.connect(*others): stops at the first exception *)
+(* Channel.connect(others...): stops at the first exception *)
 Fixpoint connect (s : cstore) (a : nat) (bs : list nat) : cstore * res :=
   match bs with
   | [] => (s, Ok)
@@ -165,7 +165,7 @@ Fixpoint disc_rec (fuel : nat) (s : cstore) (a b : nat) : cstore :=
 Definition disc1 (s : cstore) (a b : nat) : cstore :=
   disc_rec (S (List.length (conns s a) + List.length (conns s b))) s a b.
 
-(* Channel.disconnect(*others) -> destroyed (self, other) pairs *)
+(* Channel.disconnect(others...) -> destroyed (self, other) pairs *)
 Fixpoint disconnect (s : cstore) (a : nat) (bs : list nat) : cstore * list (nat * nat) :=
   match bs with
   | [] => (s, [])
@@ -421,13 +421,13 @@ Inductive src := SChan (c : nat) | SNode (n : nat).
 Inductive panel := PIn | POut | PSigIn | PSigOut | PSignals | PRun.
 
 Inductive op :=
-| OConnect (a : nat) (bs : list nat)                  (* a.connect(*bs) *)
-| ODisconnect (a : nat) (bs : list nat)               (* a.disconnect(*bs) *)
+| OConnect (a : nat) (bs : list nat)                  (* a.connect(bs...) *)
+| ODisconnect (a : nat) (bs : list nat)               (* a.disconnect(bs...) *)
 | ODisconnectAll (a : nat)
 | OCopyConns (a o : nat)                              (* a.copy_connections(o) *)
 | OAssign (c : nat) (v : src)                         (* panel[label] = v *)
-| OSetInputs (n : nat) (kw : list (nat * src))        (* n.set_input_values(**kw) *)
-| OCall (n : nat) (kw : list (nat * src)) (tree : list nat)   (* n(**kw) *)
+| OSetInputs (n : nat) (kw : list (nat * src))        (* n.set_input_values(kw...) *)
+| OCall (n : nat) (kw : list (nat * src)) (tree : list nat)   (* n(kw...) *)
 | ORshift (l r : src)                                 (* l >> r *)
 | OLshift (t : src) (ss : list src)                   (* t << ss *)
 | OPanelDisconnect (n : nat) (p : panel)
@@ -612,7 +612,7 @@ Definition res_code (r : res) : Z := match r with Ok => 0 | Err e => exn_code e 
 (* a partner is shown as (label of its owner, its channel label) packed into one number *)
 Definition pair_code (st : state) (c : nat) : Z :=
   match cget c with
-  | Some x => Z.of_nat (label_of st (c_owner x) * 32 + c_label x)
+  | Some x => Z.of_nat (label_of st (c_owner x) * 32 + c_label x)%nat
   | None => (-1)
   end.
 
@@ -637,17 +637,14 @@ Definition delta (st st' : state) : list obs :=
                     end) old new
               then [] else [OL (on c :: map OZ new)]) ids.
 
-(* the node that must be unreferenced after a successful op: 1 + its label, else 0 *)
-Definition subject (st' : state) (o : op) (r : res) : Z :=
-  match r, o with
-  | Ok, ORemove _ n | Ok, ONodeDisconnect n | Ok, OReplace _ n _ => Z.of_nat (S (label_of st' n))
-  | _, _ => 0
-  end.
-
+(* per op: outcome, node labels (only when they changed), changed connection lists, and the
+   driver's count of partners outside the universe / ill-typed strict data connections
+   (0 in the model: see ChanProofs.Inv) *)
 Definition obs_op (st st' : state) (o : op) (r : res) : obs :=
-  OL [OZ (res_code r); OZ (subject st' o r);
+  OL [OZ (res_code r);
       OL (if list_eqb (lab st) (lab st') then [] else map on (lab st'));
-      OL (delta st st')].
+      OL (delta st st');
+      OZ 0].
 
 Fixpoint trace (st : state) (ops : list op) : list obs :=
   match ops with
